@@ -518,7 +518,7 @@ PROPS = {
     'C17': alg(obs_jobs, mc=words_mc('MC_MzdWords_c17_w2')),
     'C01': dict(level='model_checking', reasons=ALG_REASONS, jobs=c01_jobs,
                 mc=lambda tier: gf2_mc(tier) + [mcjob('MC_Strassen', workers=12), mcjob('MC_Strassen', 'MC_Strassen_wit_f01', workers=4, witness=True),
-                                                mcjob('MC_M4RM', 'MC_M4RM_quick' if tier == 'quick' else 'MC_M4RM', workers=12)],
+                                                mcjob('MC_M4RM', 'MC_M4RM_quick' if tier == 'quick' else 'MC_M4RM', workers=12), mcjob('MC_DJB', 'MC_DJB', workers=4), mcjob('MC_DJB', 'MC_DJB_tall', workers=8)],
                 assumptions=['TLC evaluates GF2.tla operators correctly (checked against declarative twins by MC_GF2)',
                              'the harness logs the raw memory of operands truthfully (memcmp snapshots)',
                              'contents at 64-bit word size are sampled (structured families + seeded random), not exhaustive']),
